@@ -149,16 +149,20 @@ def run(ctx):
                 fails.append({"why": "SO_PEERCRED lookup failed for a client with euid=%d egid=%d, yet a credential was issued recording identity %s"
                                      % (u, g, p and (p["msg"]["cred_uid"], p["msg"]["cred_gid"])), "kind": "peercred-fault"})
         os.unlink(flag)
-        good, _ = rig.encode(cg.d.sock, uid=31, gid=32, auth_uid=77, data=b"restricted to 77")
+        goods = []
+        for (au, ag) in ((77, ANY), (0, ANY), (ANY, 0), (0, 0)):      # incl. the identity a zeroed, never-filled lookup would yield
+            good, _ = rig.encode(cg.d.sock, uid=31, gid=32, auth_uid=au, auth_gid=ag, data=b"restricted")
+            if good and good["error_num"] == 0:
+                goods.append((au, ag, good["data"]))
         open(flag, "w").close()
-        if good and good["error_num"] == 0:
-            for (u, g) in ((77, 1), (78, 1), (0, 0)):
-                d, st = rig.decode(cg.d.sock, good["data"], uid=u, gid=g)
-                ctx.count(("peercred-fault-dec", u, g))
+        for (au, ag, gc) in goods:
+            for (u, g) in ((77, 1), (78, 1), (0, 0), (4321, 4321)):
+                d, st = rig.decode(cg.d.sock, gc, uid=u, gid=g)
+                ctx.count(("peercred-fault-dec", au, ag, u, g))
                 dist["peercred-fault"] = dist.get("peercred-fault", 0) + 1
-                if d is not None and d["error_num"] in (0, 15, 16, 17):
-                    fails.append({"why": "SO_PEERCRED lookup failed for a decoding client, yet the restricted credential was disclosed (error %d)" % d["error_num"],
-                                  "kind": "peercred-fault"})
+                if d is not None and (d["error_num"] in (0, 15, 16, 17) or d["data_len"] != 0):
+                    fails.append({"why": "SO_PEERCRED lookup failed for a decoding client (euid=%d egid=%d), yet the credential restricted to "
+                                         "(uid %d, gid %d) was disclosed (error %d)" % (u, g, au, ag, d["error_num"]), "kind": "peercred-fault"})
         os.unlink(flag)
         c = rig.canary(cg.d.sock)
         if c:
